@@ -474,6 +474,7 @@ class ItemSpec:
         self.opts = opts
         self.lineno = lineno
         self.binds = []
+        self.variants = []   # earlier alternatives (sections, rws, binds); the current fields hold the last one
         self.sections = {}   # 'pre'|'spec'|'entry'|'exit'|('loop',n)|('closure',n) -> text
         self.rws = []        # (tag, count, orig, new)
         self.slice = None
@@ -1212,6 +1213,16 @@ def expand_fragment(frag_name, text, out_lines, regions, log, vacuity=False):
                         if not mc:
                             raise ExtractError('%s: bad %s directive (%s)' % (frag_name, w[0], d2))
                         cur_sec = (mc.group(1), mc.group(2))
+                    elif w[0] == 'alt':
+                        # `//@ alt`: what follows is an ALTERNATIVE set of hint sections (rewrites, loop invariants, anchored
+                        # ghost text, entry/exit proof) for another shape of the same function; contract sections (`spec`,
+                        # `pre`, `sig`, `tail`) are shared unless given again. The first variant that splices is used.
+                        flush()
+                        shared = {k: v for k, v in spec.sections.items() if k in ('spec', 'pre', 'sig', 'tail')}
+                        spec.variants.append((dict(spec.sections), list(spec.rws), list(spec.binds)))
+                        spec.sections = dict(shared)
+                        spec.rws = []
+                        spec.binds = []
                     elif w[0] == 'bind':
                         flush()
                         mb = re.match(r'^bind\s+([A-Z][A-Z0-9_]*)\s+<<(.*)>>\s*$', d2)
@@ -1244,11 +1255,22 @@ def expand_fragment(frag_name, text, out_lines, regions, log, vacuity=False):
             try:
                 if name in FORCE_DEGRADE and 'sigonly' not in opts:
                     raise ExtractError('the verifier rejects this item as it stands: %s' % FORCE_DEGRADE[name])
-                apply_binds(spec)
-                if is_slice:
-                    emit(emit_slice(spec, log, vacuity))
-                else:
-                    emit(emit_item(spec, log, vacuity))
+                variants = spec.variants + [(spec.sections, spec.rws, spec.binds)]
+                last_err = None
+                for vi, (secs, rws_, binds_) in enumerate(variants):
+                    spec.sections, spec.rws, spec.binds = dict(secs), list(rws_), list(binds_)
+                    try:
+                        log_mark = len(log)
+                        apply_binds(spec)
+                        text_ = emit_slice(spec, log, vacuity) if is_slice else emit_item(spec, log, vacuity)
+                        emit(text_)
+                        last_err = None
+                        break
+                    except ExtractError as e_:
+                        del log[log_mark:]
+                        last_err = e_
+                if last_err is not None:
+                    raise last_err
             except ExtractError as e:
                 degraded = None
                 if not is_slice and 'sigonly' not in opts:
